@@ -888,12 +888,17 @@ def mon_valid(ctx):
             return None
         if ctx.name in ("validate", "doc_validate", "validate_rerun", "validate_optional"):
             if out["issues"] != out["again"] or out["issues"] != out["rerun"]:
-                a = [i for i in out["issues"] if i not in out["again"]]
-                b = [i for i in out["again"] if i not in out["issues"]]
+                other = out["again"] if out["issues"] != out["again"] else out["rerun"]
+                a = [i for i in out["issues"] if i not in other]
+                b = [i for i in other if i not in out["issues"]]
                 return ("valid.repeatable", "same objects validated twice: only first %r, only "
                         "second %r" % (a[:2], b[:2]))
             if any(i[3] == "simkit-marker" for i in out["issues"]):
                 return ("valid.private", "a custom rule shows up in a default validation")
+            if out.get("report") is not None and out.get("report") != out.get("report_fresh"):
+                return ("valid.repeatable", "report() of a kept Validation, asked again, says %r; "
+                        "a fresh Validation of the same objects says %r" %
+                        (out["report"], out["report_fresh"]))
         elif out.get("raising"):
             if out["issues"] != out["again"]:
                 return ("valid.repeatable", "a custom validation whose rule raises for some objects "
